@@ -31,6 +31,7 @@ static void gen_common(Plan* p, Rng* r, int tier, long idx, int which) {
     sess_gen_dhist(p, r);
     plan_set(p, "hint_out", rng_coin(r, 1, 2) ? (1 << 20) : rng_range(r, 1, 200000));
     plan_set(p, "hint_reinit", (int64_t)rng_below(r, 2));
+    plan_set(p, "prelude", (idx % 4) == 2 ? 1 + (int64_t)(rng_u64(r) >> 40) : 0);
     sim_sched_plan_defaults(p, r, 0);
     plan_set(p, "sched_step_cap", 6000000);
 }
@@ -212,6 +213,16 @@ static void exec_common(const Plan* p, int which) {
     s.ud = &c; s.on_frame_complete = on_frame; s.on_flush_complete = on_flush;
     cctx = ZSTD_createCCtx_advanced(sess_cmem());
     if (!cctx) sim_violation("create_failed", "ZSTD_createCCtx_advanced failed without fault");
+    /* prelude (one run in four): a frame is started on the same context, left with output pending in the internal buffer
+     * (tiny output capacity), and abandoned by a reset - the producer gave up; the history proper then starts */
+    if (plan_get(p, "prelude", 0)) {
+        size_t const pn = s.in_size < 200000 ? s.in_size : 200000; uint8_t ob[16]; ZSTD_inBuffer ib; ZSTD_outBuffer o2; int k2, nk = (int)plan_get(p, "prelude", 1) % 7 + 1; size_t pr = 0;
+        ZSTD_CCtx_setParameter(cctx, ZSTD_c_compressionLevel, sess_get_cparam(p, "compressionLevel", 3)); ZSTD_CCtx_setParameter(cctx, ZSTD_c_nbWorkers, sess_get_cparam(p, "nbWorkers", 0));
+        ib.src = s.in; ib.size = pn; ib.pos = 0;
+        for (k2 = 0; k2 < nk; k2++) { o2.dst = ob; o2.size = 1 + (size_t)(plan_get(p, "prelude", 1) >> 3) % 16; o2.pos = 0; pr = ZSTD_compressStream2(cctx, &o2, &ib, (k2 & 1) ? ZSTD_e_flush : ZSTD_e_continue); if (ZSTD_isError(pr)) break; }
+        if (!ZSTD_isError(pr) && pr != 0) sim_probe("sess.prelude_abandoned_with_pending_output");
+        switch ((plan_get(p, "prelude", 1) >> 8) % 3) { case 0: ZSTD_CCtx_reset(cctx, ZSTD_reset_session_only); ZSTD_CCtx_reset(cctx, ZSTD_reset_parameters); break; case 1: ZSTD_CCtx_reset(cctx, ZSTD_reset_session_and_parameters); break; default: ZSTD_initCStream(cctx, 3); ZSTD_CCtx_reset(cctx, ZSTD_reset_session_and_parameters); break; }
+    }
     if (family == 1) { r = ZSTD_initCStream(cctx, sess_get_cparam(p, "compressionLevel", 3)); if (ZSTD_isError(r)) sim_violation("api_error", "initCStream: %s", ZSTD_getErrorName(r)); }
     sess_apply_cparams(cctx, p);
     if (family == 2) { ZSTD_CCtx_setParameter(cctx, ZSTD_c_nbWorkers, 0); }
